@@ -303,7 +303,8 @@ fn parse_xz_stream(b: &[u8], start: usize, content: Option<&[u8]>, cpos: &mut us
             return bad(recs, p + w.len, &format!("LZMA2 data of the block not terminated: {:?}", w.bad));
         }
         let first_ctrl = w.chunks.first().map(|c| c.ctrl as i64).unwrap_or(0);
-        recs.push(json!({"k":"Data","csize":w.len,"usize":w.usize_total,"chunks":w.chunks.len(),"first_ctrl":first_ctrl,"at":p}));
+        let ctrls: Vec<u8> = w.chunks.iter().map(|c| c.ctrl).take(256).collect();
+        recs.push(json!({"k":"Data","csize":w.len,"usize":w.usize_total,"chunks":w.chunks.len(),"first_ctrl":first_ctrl,"ctrls":ctrls,"at":p}));
         p += w.len;
         // ---- block padding: 0..3 bytes up to the next multiple of four of the compressed size
         let want = (4 - w.len % 4) % 4;
